@@ -286,7 +286,10 @@ def finish(pid, pmod, tier, seed, results, wall):
 
 
 def _safe(s):
-    return re.sub(r'[^A-Za-z0-9_.\-]+', '_', s)[:180]
+    import hashlib
+    h = hashlib.md5(s.encode()).hexdigest()[:8]
+    s = s.replace('py_ballisticcalc/', '').replace('trajectory_calc/_trajectory_calc.py', 'tc').replace('.py::', '.')
+    return re.sub(r'[^A-Za-z0-9_.\-]+', '_', s)[:150] + '-' + h
 
 
 def _match_known(o, known):
